@@ -7,6 +7,9 @@ From CR Require Import Proofs.WildcardSort.
 From CR Require Import Proofs.Wildcard.
 From CR Require Corr.C13.
 From CR Require Import Proofs.WildcardCorr13.
+From CR Require Import Model.Addresser.
+From CR Require Corr.C13sys.
+From CR Require Import Proofs.Addresser.
 From Coq Require Import Permutation Sorted.
 Local Open Scope N_scope.
 
@@ -97,6 +100,75 @@ Proof.
   eexists. split; [left; reflexivity|]. repeat split.
 Qed.
 
+(* ---- the rtnetlink layer which a prepared plugin reads (system.NewAddresser().AddressesByIndex): the answer
+   of the netlink request -- messages and whether it failed -- is an input *)
+
+(* "a failure to list addresses fails RA generation rather than silently advertising nothing": a failed request
+   is an error whatever messages came with it (none, as rtnetlink does, or a partial dump), the plugin's source
+   then fails, and so does Apply *)
+Theorem C13_listing_failure : forall msgs pfx onlink autonomous valid preferred deprecated epoch now,
+  addresses_by_index msgs true = Err 1 /\
+  addrs_source msgs true = None /\
+  is_ok (prefix_Apply true pfx 64 onlink autonomous valid preferred deprecated epoch now (addrs_source msgs true)) = false.
+Proof.
+  intros. split; [apply addresses_failed|]. split; [apply addrs_source_none; reflexivity|].
+  apply C13_error. apply addrs_source_none. reflexivity.
+Qed.
+
+(* the source fails ONLY when the request failed: an empty dump is an empty list (no prefixes), not an error *)
+Theorem C13_listing_fails_iff : forall msgs failed, addrs_source msgs failed = None <-> failed = true.
+Proof. exact addrs_source_none. Qed.
+
+(* a successful request yields exactly the listed addresses, in order, one entry per message, IPv6, with the
+   message's prefix length, and the flag bits mean what linux/if_addr.h says *)
+Theorem C13_listing_exact : forall msgs,
+  addresses_by_index msgs false = Ok (map decode_addr msgs) /\
+  forall m, In m msgs ->
+    let a := decode_addr m in
+    ip_v4 a = false /\ ip_addr a = am_addr m /\ ip_bits a = am_plen m /\
+    ip_temporary a = N.testbit (am_flags m) 0 /\ ip_deprecated a = N.testbit (am_flags m) 5 /\
+    ip_tentative a = N.testbit (am_flags m) 6 /\ ip_mngtmp a = N.testbit (am_flags m) 8 /\
+    ip_stablepriv a = N.testbit (am_flags m) 11 /\
+    (ip_forever a = true <-> am_valid m = 4294967295).
+Proof.
+  intros msgs. split; [apply addresses_ok|]. intros m _. cbn.
+  repeat split; try reflexivity.
+  - exact (has_flag_bit (am_flags m) 0).
+  - exact (has_flag_bit (am_flags m) 5).
+  - exact (has_flag_bit (am_flags m) 6).
+  - exact (has_flag_bit (am_flags m) 8).
+  - exact (has_flag_bit (am_flags m) 11).
+  - intro H. apply N.eqb_eq in H. exact H.
+  - intro H. apply N.eqb_eq. exact H.
+Qed.
+
+(* the loopback route listing (C15's source) has the same shape *)
+Theorem C13_route_listing : forall msgs,
+  routes_by_index msgs true = Err 1 /\ routes_by_index msgs false = Ok (map decode_route msgs).
+Proof. intros. split; [apply routes_failed | apply routes_ok]. Qed.
+
+(* the checker evaluated on the real addresser's output accepts the model's output on every input *)
+Theorem C13_sys_checker_accepts_model : forall msgs rmsgs failed,
+  Corr.C13sys.holds (Corr.C13sys.CAddrs msgs failed (addresses_by_index msgs failed)) = true /\
+  Corr.C13sys.holds (Corr.C13sys.CRoutes rmsgs failed (routes_by_index rmsgs failed)) = true.
+Proof. intros. split; [apply checker_accepts_addresses | apply checker_accepts_routes]. Qed.
+
+(* non-vacuity: a static GUA, a temporary+deprecated address, a stable-privacy tentative one; the same dump with
+   a failing request; and what the checker says about "no addresses, no error" for a failed request *)
+Example C13_sys_example :
+  let msgs := [mkAM 0x20010db8000000000000000000000001 64 0x80 4294967295;      (* IFA_F_PERMANENT only *)
+               mkAM 0x20010db80000000000000000000000aa 64 0x21 3600;
+               mkAM 0xfd000000000000000000000000000001 64 0x940 86400] in
+  addresses_by_index msgs false =
+    Ok [mkIP false 0x20010db8000000000000000000000001 64 false false false false false true;
+        mkIP false 0x20010db80000000000000000000000aa 64 true false false true false false;
+        mkIP false 0xfd000000000000000000000000000001 64 false true true false true false] /\
+  addresses_by_index msgs true = Err 1 /\
+  addresses_by_index [] false = Ok [] /\
+  Corr.C13sys.holds (Corr.C13sys.CAddrs [] true (Ok [])) = false /\
+  Corr.C13sys.holds (Corr.C13sys.CAddrs msgs true (Ok [])) = false.
+Proof. repeat split; vm_compute; reflexivity. Qed.
+
 Print Assumptions C13_mem.
 Print Assumptions C13_network.
 Print Assumptions C13_nodup.
@@ -109,3 +181,9 @@ Print Assumptions C13_error.
 Print Assumptions C13_checker_accepts_model.
 Print Assumptions C13_sort_stable.
 Print Assumptions C13_example.
+Print Assumptions C13_listing_failure.
+Print Assumptions C13_listing_fails_iff.
+Print Assumptions C13_listing_exact.
+Print Assumptions C13_route_listing.
+Print Assumptions C13_sys_checker_accepts_model.
+Print Assumptions C13_sys_example.
